@@ -326,8 +326,14 @@ class Decode:
             d = self.single_def(F, l)
             neg = False
             hops = 0
-            while d and d[0] == "assign" and d[3]["k"] in ("un", "use") and hops < 4:
+            while d and hops < 6 and ((d[0] == "assign" and d[3]["k"] in ("un", "use")) or self._is_hint_call(d)):
                 hops += 1
+                if d[0] == "call":
+                    nl = op_local(d[2]["args"][0])
+                    if nl is None:
+                        return None
+                    d = self.single_def(F, nl)
+                    continue
                 if d[3]["k"] == "un" and d[3].get("op") == "Not":
                     neg = not neg
                 elif d[3]["k"] == "un":
@@ -742,6 +748,82 @@ class Decode:
         if m:
             return c(m.group(1))
         return None
+
+    def _is_hint_call(self, d):
+        """`rawdb::hints::likely(b)` / `unlikely(b)`: identity on bool (checked on the helper's own MIR: every
+        assignment to its return place copies the parameter)."""
+        if not d or d[0] != "call" or len(d[2]["args"]) != 1:
+            return False
+        kind, tg = self.P.resolve(d[2]["callee"])
+        if kind != "ws" or len(tg) != 1 or not re.search(r"::hints::(likely|unlikely)$", tg[0]):
+            return False
+        ok = self.__dict__.setdefault("_hint_ok", {})
+        if tg[0] not in ok:
+            G = self.P.bodies[tg[0]]
+            rets = []
+            for blk in G.blocks:
+                for st in blk["stmts"]:
+                    if st[0] == "assign" and st[1]["l"] == 0:
+                        rv = st[2]
+                        rets.append(rv["k"] == "use" and rv["ops"] and op_local(rv["ops"][0]) == 1
+                                    and not op_place(rv["ops"][0])["p"])
+                if blk["term"]["k"] == "call" and blk["term"]["dest"]["l"] == 0:
+                    rets.append(False)
+            ok[tg[0]] = bool(rets) and all(rets) and G.arg_count == 1
+        return ok[tg[0]]
+
+    def raw_copy_sites(self, F):
+        """every `ptr::copy_nonoverlapping(src, dst, count)` whose src is `as_ptr()` of a slice S: the bytes read
+        must lie inside S. u8 slices: count <= len(S) entailed by the facts; typed slices: count == len(S) * size_of."""
+        res = None
+        out = []
+        for b in F.reachable():
+            t = F.blocks[b]["term"]
+            if t["k"] != "call" or not any(re.search(r"core::(ptr|intrinsics)::copy(_nonoverlapping)?$", n) for n in names(t)):
+                continue
+            if len(t["args"]) != 3:
+                continue
+            cur = op_local(t["args"][0])
+            src = None
+            for _ in range(8):
+                d = self.single_def(F, cur) if cur is not None else None
+                if d is None:
+                    break
+                if d[0] == "assign" and d[3]["k"] in ("use", "cast") and d[3]["ops"]:
+                    cur = op_local(d[3]["ops"][0])
+                    continue
+                if d[0] == "call" and any(n.endswith("::as_ptr") or n.endswith("::as_mut_ptr") for n in names(d[2])):
+                    src = d[2]["args"][0]
+                break
+            if src is None or op_place(src) is None:
+                out.append(self._site(F, b, t, "raw-copy", True, "source is not a slice's as_ptr (not an input-slice copy)", []))
+                continue
+            sty = F.locals[op_place(src)["l"]]["ty"]
+            ln = ("len", self.root_place(F, op_place(src)))
+            cnt = self.expr(F, t["args"][2])
+            if res is None:
+                res = self.analyze(F, want_sites=False, keep_state=True)
+            st = res["state_in"]
+            facts = self._facts_at_term(F, b, st, None) if b in st else frozenset()
+            if re.search(r"\[u8\]|Vec<u8", sty):
+                ok = self.entails(facts, cnt, ln)
+                why = "count <= len(source) entailed" if ok else "bytes copied out of the input are not bounded by its length"
+            else:
+                ok = cnt[0] == "mul" and ln in cnt[1:]
+                cl = op_local(t["args"][2])
+                for _ in range(4):
+                    dd = self.single_def(F, cl) if cl is not None else None
+                    if dd and dd[0] == "assign" and dd[3]["k"] == "use" and dd[3]["ops"]:
+                        cl = op_local(dd[3]["ops"][0])
+                        continue
+                    if dd and dd[0] == "call" and any(n.endswith("mem::size_of_val") for n in names(dd[2])) \
+                            and op_place(dd[2]["args"][0]) is not None \
+                            and ("len", self.root_place(F, op_place(dd[2]["args"][0]))) == ln:
+                        ok = True
+                    break
+                why = "count = byte size of the source slice" if ok else "count is not len(source) * element size"
+            out.append(self._site(F, b, t, "raw-copy", ok, why, [cnt, ln]))
+        return out
 
     def _chunk_item_width(self, F, opt_local):
         """width of the `&[u8]` component of an item produced by `Iterator::next` on an iterator built (in this body,
